@@ -2,6 +2,7 @@ import OrdModel.Proofs.IndexFlagsChain
 import OrdModel.Proofs.IndexFlagsValid
 import OrdModel.Proofs.IndexFlagsNoIns
 import OrdModel.Proofs.IndexFlagsWitness
+import OrdModel.Proofs.IndexLiftDischargeC15
 import OrdModel.Index.Valid
 /-
 C15 — optional indexes do not change inscription or rune results.
@@ -44,6 +45,10 @@ inscription updater commutes with erasing what the optional indexes add),
 `c15_charms_independent_of_sat`, `c15_projection_of_erased`.
 `c15_runes_only` — inscriptions not indexed: the statement holds with no side condition at all
 (any chain, any activation heights, events included), on the same blocks.
+`c15_valid_chain` — **the statement for every valid chain with first inscription height 0, no side
+hypothesis**: `NullStableFrom` is discharged from C04's chain-level invariant
+(`c15_nullStable_of_insChain`, lemmas `Proofs/IndexLiftDischargeC15.lean` over
+`Proofs/IndexLiftIns*.lean`), and the case "inscriptions not indexed" is `c15_runes_only`.
 -/
 namespace Ord.Index
 open Outcome
@@ -183,6 +188,69 @@ theorem c15_seen_is_run (cfg : Cfg) (hi : cfg.indexInscriptions = true) (hf : cf
   have hid : fetchView cfg = id := funext this
   rw [hid, List.map_id]
 
+/-! ## `NullStableFrom` discharged: the statement without side hypothesis
+
+C04's invariant is proved for every reachable state (`Insloc.c04_reachable`) by way of a
+mid-block invariant (`InsLift.MInv`: the sequence numbers listed in table ++ cache ++ pending
+special entries ++ saved flotsam are exactly `0 … n-1`, each once).  At the mid-commit state that
+`NullRowsStable` talks about, the same invariant gives "listed at the null outpoint ⇒ satpoint
+row there" (`InsLift.flush_sp_of_listed`), so `NullStableFrom` is a theorem under C04's chain
+hypotheses `InsLift.InsChain`, which every `Valid.validChain` satisfies. -/
+
+/-- `NullStableFrom` holds for every chain satisfying `InsChain` (distinct non-zero txids, no
+special-outpoint spend outside a block's first transaction, coinbase-first blocks, non-decreasing
+heights), with inscriptions indexed — whatever the sat index. -/
+theorem c15_nullStable_of_insChain (cfg : Cfg) (hi : cfg.indexInscriptions = true) (chain : List Block)
+    (hc : InsLift.InsChain chain) : NullStableFrom cfg {} chain :=
+  InsLift.nullStableFrom_of_insChain cfg hi chain hc
+
+/-- its one-block core: at a state satisfying C04's block-boundary invariant, the block's
+mid-commit state has the rows of the inscriptions listed at the null outpoint in place. -/
+theorem c15_nullRowsStable_of_c04 (cfg : Cfg) (hi : cfg.indexInscriptions = true) (seen : List Txid)
+    (st : State) (blk : Block) (hS : InsLift.SInv cfg seen st) (hb : InsLift.BlockIns cfg seen st blk) :
+    NullRowsStable cfg st blk :=
+  InsLift.nullRowsStable_of_sinv cfg hi seen st blk hS hb
+
+/-- `c15_partial` under chain hypotheses only (`InsChain` + `BlockShape`). -/
+theorem c15_chain (cfg cfg' : Cfg) (hsame : SameUpToOptionalIndexes cfg cfg')
+    (hi : cfg.indexInscriptions = true) (hf : cfg.firstInscriptionHeight = 0)
+    (chain : List Block) (hs : ∀ b ∈ chain, BlockShape b = true) (hc : InsLift.InsChain chain)
+    (st st' : State) (evs evs' : List Event)
+    (h : run cfg chain = .ok (st, evs)) (h' : run cfg' chain = .ok (st', evs')) :
+    projInsRunes st = projInsRunes st' :=
+  c15_partial cfg cfg' hsame hi hf chain hs (c15_nullStable_of_insChain cfg hi chain hc)
+    (c15_nullStable_of_insChain cfg' (hsame.1 ▸ hi) chain hc) st st' evs evs' h h'
+
+/-- **C15 for every valid chain, first inscription height 0** (regtest, testnet4): two
+configurations that differ only in the sat / address / transaction indexes and both index the
+chain successfully end with the same inscription and rune results — ids, numbers, locations,
+parents, fees, heights, non-sat charms, every rune entry, balance and counter (`projInsRunes`).
+No side hypothesis: inscriptions indexed or not, sat index on or off. -/
+theorem c15_valid_chain (cfg cfg' : Cfg) (hsame : SameUpToOptionalIndexes cfg cfg')
+    (hf : cfg.firstInscriptionHeight = 0)
+    (chain : List Block) (hv : Valid.validChain chain = true)
+    (st st' : State) (evs evs' : List Event)
+    (h : run cfg chain = .ok (st, evs)) (h' : run cfg' chain = .ok (st', evs')) :
+    projInsRunes st = projInsRunes st' := by
+  cases hi : cfg.indexInscriptions with
+  | false => exact (c15_runes_only cfg cfg' hsame hi chain st st' evs evs' h h').1
+  | true =>
+    exact c15_chain cfg cfg' hsame hi hf chain (blockShape_of_validChain chain hv)
+      (InsLift.insChain_of_validChain chain hv).1 st st' evs evs' h h'
+
+/-- … and the same about what each configuration *sees* of the chain (`runSeen`: below
+`first_index_height` only headers): with inscriptions indexed from height 0 every
+configuration sees every block. -/
+theorem c15_valid_chain_seen (cfg cfg' : Cfg) (hsame : SameUpToOptionalIndexes cfg cfg')
+    (hi : cfg.indexInscriptions = true) (hf : cfg.firstInscriptionHeight = 0)
+    (chain : List Block) (hv : Valid.validChain chain = true)
+    (st st' : State) (evs evs' : List Event)
+    (h : runSeen cfg chain = .ok (st, evs)) (h' : runSeen cfg' chain = .ok (st', evs')) :
+    projInsRunes st = projInsRunes st' := by
+  rw [c15_seen_is_run cfg hi hf] at h
+  rw [c15_seen_is_run cfg' (hsame.1 ▸ hi) (hsame.2.2.1 ▸ hf)] at h'
+  exact c15_valid_chain cfg cfg' hsame hf chain hv st st' evs evs' h h'
+
 /-! ## The two counterexamples -/
 
 theorem w1_sats_on : (stateAfter' (run (w1Cfg true) w1Chain)).map (fun st => (projInsRunes st).seq2sp) =
@@ -254,6 +322,12 @@ example : SameUpToOptionalIndexes (w0Cfg true) (w0Cfg false) ∧ Valid.validChai
     (stateAfter' (run (w0Cfg false) w1Chain)).map (fun st => (projInsRunes st).seq2sp) = some [(0, ⟨OutPoint.null, 1000⟩)] :=
   ⟨⟨rfl, rfl, rfl, rfl, rfl⟩, by decide, c15_nullStable_decidable _ _ _ (by decide),
     c15_nullStable_of_noSats _ rfl _ _, by decide, by decide⟩
+
+/-- `c15_valid_chain` applies to the same chain (sat index on vs off, inscriptions indexed, an
+inscription created and lost): its hypotheses are validity and success of the two runs only. -/
+example : SameUpToOptionalIndexes (w0Cfg true) (w0Cfg false) ∧ (w0Cfg true).firstInscriptionHeight = 0 ∧
+    Valid.validChain w1Chain = true ∧ (run (w0Cfg true) w1Chain).isOk = true ∧ (run (w0Cfg false) w1Chain).isOk = true :=
+  ⟨⟨rfl, rfl, rfl, rfl, rfl⟩, rfl, by decide, by decide, by decide⟩
 
 example : (w1Chain.map BlockShape).all id = true := by decide
 example : (w1Cfg true).base = w1Cfg false := rfl
